@@ -585,7 +585,11 @@ def render_cpp(model):
     w("/**\n * FFI-Safe Arc\n */\ntemplate<typename T>\nstruct CArc {\n    const T *instance;\n    const T *(*clone_fn)(const T*);\n    void (*drop_fn)(const T*);\n};\n")
     w("/**\n * FFI-safe box\n */\ntemplate<typename T>\nstruct CBox {\n    T *instance;\n    void (*drop_fn)(T*);\n};\n")
     w("/**\n * A two-field argument structure.\n */\nstruct ArgPair {\n    uint32_t a;\n    uint64_t b;\n};\n")
-    w("/**\n * Wrapper around const slices.\n */\ntemplate<typename T>\nstruct CSliceRef {\n    const T *data;\n    uintptr_t len;\n};\n")
+    uses_ref = any(a[0] == "struct CSliceRef_u8" for t in m["traits"] for f in t["funcs"] for a in f[2])
+    if uses_ref or m["seed"] % 3 != 0:
+        w("/**\n * Wrapper around const slices.\n */\ntemplate<typename T>\nstruct CSliceRef {\n    const T *data;\n    uintptr_t len;\n};\n")
+    # a crate may expose mutable slices only
+    w("/**\n * Wrapper around mutable slices.\n */\ntemplate<typename T>\nstruct CSliceMut {\n    T *data;\n    uintptr_t len;\n};\n")
     w("/**\n * FFI-safe callback.\n */\ntemplate<typename T, typename F>\nstruct Callback {\n    T *context;\n    bool (*func)(T*, F);\n};\n")
     w("template<typename T>\nusing OpaqueCallback = Callback<void, T>;\n")
     if m["foreign_names"]:
